@@ -75,6 +75,16 @@ def noncomposite_subfield_error(file_name, location, name):
     ]
 
 
+def module_as_field_error(file_name, location, name):
+    return [
+        error.error(
+            file_name,
+            location,
+            "Cannot use imported module '{}' as a field".format(name),
+        )
+    ]
+
+
 def _nested_name(canonical_name, name):
     """Creates a new CanonicalName with name appended to the object_path."""
     return ir_data.CanonicalName(
@@ -317,14 +327,18 @@ def _add_alias_to_scope(name_ir, table, scope, alias, visibility, errors):
 def _resolve_head_of_field_reference(
     field_reference, table, current_scope, visible_scopes, source_file_name, errors
 ):
-    return _resolve_reference(
-        field_reference.path[0],
-        table,
-        current_scope,
-        visible_scopes,
-        source_file_name,
-        errors,
+    head = field_reference.path[0]
+    _resolve_reference(
+        head, table, current_scope, visible_scopes, source_file_name, errors
     )
+    if head.has_field("canonical_name") and not head.canonical_name.object_path:
+        # The only names that stand for a whole module are import aliases, which
+        # may qualify the name of a type (`alias.Type`), but are never fields.
+        errors.append(
+            module_as_field_error(
+                source_file_name, head.source_location, head.source_name[0].text
+            )
+        )
 
 
 def _resolve_reference(
